@@ -9,7 +9,10 @@ pub fn run(case: &serde_json::Value, out: &mut String) {
     let inst = case["instance"].clone();
     // the loader is run once more only to print the depot permutation of THIS process' hash order?
     // No: hash order differs per HashMap instance, so the permutation is read off the recorded schedules.
-    let r = guarded(move || server::solve_instance(inst));
+    // "entry": "internal" runs the second copy of the wiring (internal::run, the command-line path) instead of
+    // server::solve_instance; both carry the same hooks
+    let internal_entry = case["entry"].as_str() == Some("internal");
+    let r = guarded(move || if internal_entry { internal::run(inst) } else { server::solve_instance(inst) });
     // stage snapshots and accepted local-search steps recorded by the cfg(rssched_verif) hooks
     let recs = solver::verif_hooks::take();
     if let Some((_, s)) = recs.first() {
